@@ -8,7 +8,9 @@ package rpc
 // to the caller's buffer beyond the message length.
 func zzH_C11m() {
 	vSetPoolReuse(true)
-	n := 1 + vChoose("msglen", 3) // 1..3
+	// 1..3, then a message that fills its pooled buffer exactly (len == cap, smallest size class 8)
+	// and one just past that class
+	n := [...]int{1, 2, 3, 8, 9}[vChoose("msglen", 5)]
 	st := &stream{noCopy: false}
 	st.cond.L = &st.mut
 	var handed [][]byte
@@ -51,11 +53,14 @@ func zzH_C11m() {
 	st.ReadMessage(nil, &msg3)
 	vAssert(vEqBytes(msg2, c2) && vEqBytes(msg3, c3), "later-messages-as-sent")
 	vAssert(vEqBytes(msg1, snap) && vEqBytes(msg1, c1), "first-message-unchanged-after-further-traffic")
-	if cap(b) > n {
-		vAssert(&msg1[0] == &b[:1][0], "user-buffer-used-when-large-enough")
-		vAssert(vEqBytes(b[n:cap(b)], stale[n:]), "nothing-written-beyond-reported-length")
-	} else if cap(b) > 0 {
-		vAssert(vEqBytes(b[:cap(b)], stale), "small-user-buffer-untouched")
+	// The property does not say when the caller's buffer must be used (exact fit or not), only that
+	// nothing is written beyond the reported length when it is, and nothing at all when it is not.
+	if cap(b) > 0 {
+		if &msg1[0] == &b[:1][0] {
+			vAssert(vEqBytes(b[n:cap(b)], stale[n:]), "nothing-written-beyond-reported-length")
+		} else {
+			vAssert(vEqBytes(b[:cap(b)], stale), "unused-user-buffer-untouched")
+		}
 	}
 	vReach("end")
 }
@@ -69,7 +74,9 @@ func zzH_C11m() {
 // a backing array. Both reader modes are driven (vChoose "nocopy").
 func zzH_C11n() {
 	vSetPoolReuse(true)
-	n := 1 + vChoose("msglen", 3) // 1..3
+	// 1..3, then a message that fills its pooled buffer exactly (len == cap, smallest size class 8)
+	// and one just past that class
+	n := [...]int{1, 2, 3, 8, 9}[vChoose("msglen", 5)]
 	st := &stream{noCopy: vChoose("nocopy", 2) == 1}
 	st.cond.L = &st.mut
 	var want []byte
